@@ -117,7 +117,7 @@ def run_shard(desc, ctx):
         run_case({'kind': 'churn', 'nparts': {2: 2, 9: 3, 12: 4}[sh]}, ctx)
     # recordings made of many files (12 x 3 rows, 40 x 2 rows): every pair of rows as an index list, plus random longer lists
     if sh % 4 in (1, 3):
-        parts = [[3] * 12, [2] * 40][sh % 4 // 2] if sh != 5 else [2] * 70        # (70 files: more than any plausible pool of open maps)
+        parts = [[3] * 12, [2] * 40][sh % 4 // 2] if sh != 5 else [2] * 140        # (140 files: more than a pool of 64 or 128 open maps)
         n_ = sum(parts)
         rngm = np.random.default_rng([desc['seed'], sh, 202])
         pairs = [[i, j] for i in range(n_) for j in range(i + 1, n_) if (i * 31 + j) % 16 == sh]
